@@ -15,6 +15,15 @@
 //!                Unlike `K` this observes the real code's own step order: whatever it did before the failing step.
 //!              | E<k>.<v> an event processed by the operator whose process function puts v under k (F / M: plain put)
 //!           keys k ∈ 0..2, values v ∈ 0..9 are indices into fixed tables of names / `Value`s.
+//!             | Q (file backend, REAL KILL: the ops up to and including the single kill op run in a CHILD process
+//!               `c20 crash-child <dir> <case>` which `std::process::abort()`s at the armed `verif_crash` point between
+//!               two real syscalls of the real `checkpoint` / `restore`; the parent lists the directory the dead child
+//!               left, lets a NEW store restore every id the child reported plus the id under way, then opens another
+//!               NEW store on that directory and runs the remaining ops on it. `R<i>` after the kill: ids of the child
+//!               first - the one under way included -, then the new ones.)
+//!           kill ops (kind Q only, exactly one): Y<p> checkpoint killed at its crash point p | V<i>.<p> restore of id #i
+//!               killed at its crash point p   (p past the last point of the call: the child returns and exits)
+//!           kill step := dead@<label of the point>|exit / files / id>ok=<view>|id><kind>=u|c,…
 //! obs  := step;step;…   step := res/gets/keys/len/metas/files[/crash]
 //!           res   := ok | ok:<id> | err:<kind>          id printed `<ms>.<seq>` (`<ms>` before the fix)
 //!           gets  := g,g,g   (g = value index or `_`)   keys := sorted key indices   len := usize
@@ -25,7 +34,7 @@
 //! The clock is the `#[cfg(rre_verif)]` thread-local override of streaming::state (starts at 0).
 use rre_harness::*;
 use rust_rule_engine::streaming::event::StreamEvent;
-use rust_rule_engine::streaming::state::{verif_clock, StateBackend, StateConfig, StateResult, StateStore, StatefulOperator};
+use rust_rule_engine::streaming::state::{verif_clock, verif_crash, StateBackend, StateConfig, StateResult, StateStore, StatefulOperator};
 use rust_rule_engine::types::Value;
 use std::collections::{BTreeMap, HashMap};
 use std::fs;
@@ -73,6 +82,8 @@ enum Op {
     Crash,
     FailCk,
     Event(usize, usize),
+    Kill(u64),
+    KillRestore(usize, u64),
 }
 
 fn parse_op(s: &str) -> Option<Op> {
@@ -102,6 +113,8 @@ fn parse_op(s: &str) -> Option<Op> {
         ("Z", 0) => Op::FailCk,
         ("E", 2) => Op::Event(k(0)?, v(1)?),
         ("R", 1) => Op::Restore(nums[0] as usize),
+        ("Y", 1) => Op::Kill(nums[0]),
+        ("V", 2) => Op::KillRestore(nums[0] as usize, nums[1]),
         ("A", 1) => Op::Advance(nums[0]),
         _ => return None,
     })
@@ -120,11 +133,15 @@ fn show_op(o: &Op) -> String {
         Op::FailCk => "Z".into(),
         Op::Event(k, v) => format!("E{}.{}", k, v),
         Op::Restore(i) => format!("R{}", i),
+        Op::Kill(p) => format!("Y{}", p),
+        Op::KillRestore(i, p) => format!("V{}.{}", i, p),
         Op::Advance(d) => format!("A{}", d),
     }
 }
 
 struct Case {
+    /// kind Q: real kill of a child process (implies `file`)
+    real: bool,
     /// the file backend driven through `StatefulOperator` (implies `file`)
     oper: bool,
     file: bool,
@@ -139,11 +156,12 @@ fn parse_case(case: &str) -> Option<Case> {
         return None;
     }
     let (file, oper) = match t[0] {
-        "F" => (true, false),
+        "F" | "Q" => (true, false),
         "O" => (true, true),
         "M" => (false, false),
         _ => return None,
     };
+    let real = t[0] == "Q";
     let max_ck = t[1].parse().ok()?;
     let ttl = if t[2] == "N" { None } else { Some(t[2].parse().ok()?) };
     let ops = if t[3] == "-" {
@@ -155,13 +173,18 @@ fn parse_case(case: &str) -> Option<Case> {
     if !file && ops.iter().any(|o| matches!(o, Op::FailCk)) {
         return None;
     }
-    Some(Case { oper, file, max_ck, ttl, ops })
+    let kills = ops.iter().filter(|o| matches!(o, Op::Kill(_) | Op::KillRestore(..))).count();
+    let special = ops.iter().any(|o| matches!(o, Op::Crash | Op::FailCk | Op::Event(..)));
+    if (real && (kills != 1 || special)) || (!real && kills != 0) {
+        return None;
+    }
+    Some(Case { real, oper, file, max_ck, ttl, ops })
 }
 
 fn show_case(c: &Case) -> String {
     format!(
         "{} {} {} {}",
-        if c.oper { "O" } else if c.file { "F" } else { "M" },
+        if c.real { "Q" } else if c.oper { "O" } else if c.file { "F" } else { "M" },
         c.max_ck,
         c.ttl.map(|t| t.to_string()).unwrap_or_else(|| "N".into()),
         if c.ops.is_empty() { "-".to_string() } else { c.ops.iter().map(show_op).collect::<Vec<_>>().join(",") }
@@ -480,8 +503,203 @@ impl Sut {
     }
 }
 
+fn open_store(c: &Case, root: &Path) -> StateStore {
+    StateStore::with_config(StateConfig {
+        backend: StateBackend::File { path: root.to_path_buf() },
+        max_checkpoints: c.max_ck,
+        enable_ttl: c.ttl.is_some(),
+        default_ttl: Duration::from_millis(c.ttl.unwrap_or(3_600_000)),
+        ..Default::default()
+    })
+}
+
+/// the plain ops of kind Q on a bare store; returns the `res` field
+fn apply_plain(s: &mut StateStore, op: &Op, tab: &[Value], now: &mut u64, ids: &mut Vec<String>) -> String {
+    let unit = |r: Result<(), rust_rule_engine::RuleEngineError>| match r {
+        Ok(()) => "ok".to_string(),
+        Err(e) => format!("err:{}", err_kind(&e)),
+    };
+    match op {
+        Op::Put(k, v) => unit(s.put(KEYS[*k], tab[*v].clone())),
+        Op::PutTtl(k, v, t) => unit(s.put_with_ttl(KEYS[*k], tab[*v].clone(), Duration::from_millis(*t))),
+        Op::Update(k, v) => unit(s.update(KEYS[*k], tab[*v].clone())),
+        Op::Delete(k) => unit(s.delete(KEYS[*k])),
+        Op::Clear => unit(s.clear()),
+        Op::Cleanup => {
+            s.cleanup_expired();
+            "ok".into()
+        }
+        Op::Advance(d) => {
+            *now += d;
+            verif_clock::set_ms(Some(*now));
+            "ok".into()
+        }
+        Op::Restore(i) => {
+            let id = ids.get(*i).cloned().unwrap_or_else(|| "checkpoint_nonexistent".to_string());
+            unit(s.restore(&id))
+        }
+        Op::Checkpoint => match s.checkpoint(format!("cp{}", ids.len())) {
+            Ok(id) => {
+                let r = format!("ok:{}", canon_id(&id));
+                ids.push(id);
+                r
+            }
+            Err(e) => format!("err:{}", err_kind(&e)),
+        },
+        _ => "bad-op".into(),
+    }
+}
+
+fn say(line: &str) {
+    use std::io::Write;
+    let o = std::io::stdout();
+    let mut o = o.lock();
+    let _ = writeln!(o, "{}", line);
+    let _ = o.flush();
+}
+
+/// `c20 crash-child <dir> <case>`: the first life of a kind-Q case. One observation line per completed call (flushed at
+/// once), `#id <raw id>` after every checkpoint; inside the kill op the armed crash point aborts the process.
+fn child_main(dir: &str, case: &str) -> ! {
+    let Some(c) = parse_case(case) else { std::process::exit(3) };
+    let tab = values();
+    let root = PathBuf::from(dir);
+    let mut now: u64 = 0;
+    verif_clock::set_ms(Some(now));
+    let mut s = open_store(&c, &root);
+    let mut ids: Vec<String> = Vec::new();
+    for op in &c.ops {
+        match op {
+            Op::Kill(p) => {
+                verif_crash::arm(Some(*p));
+                let r = s.checkpoint(format!("cp{}", ids.len()));
+                verif_crash::arm(None);
+                match r {
+                    Ok(id) => say(&format!("#exit {}", id)),
+                    Err(e) => say(&format!("#exit-err {}", err_kind(&e))),
+                }
+                std::process::exit(0);
+            }
+            Op::KillRestore(i, p) => {
+                let id = ids.get(*i).cloned().unwrap_or_else(|| "checkpoint_nonexistent".to_string());
+                verif_crash::arm(Some(*p));
+                let _ = s.restore(&id);
+                verif_crash::arm(None);
+                say("#exit -");
+                std::process::exit(0);
+            }
+            _ => {
+                let n = ids.len();
+                let res = apply_plain(&mut s, op, &tab, &mut now, &mut ids);
+                if ids.len() > n {
+                    say(&format!("#id {}", ids[n]));
+                }
+                say(&observe(&res, &s, Some(&root), &tab));
+            }
+        }
+    }
+    std::process::exit(0)
+}
+
+/// kind Q: first life in a child process that is really killed, post-mortem by the parent, second life on a new store
+fn exec_real(c: &Case, case: &str) -> String {
+    use std::os::unix::process::ExitStatusExt;
+    let tab = values();
+    let root = fresh_dir("q");
+    let _guard = DirGuard(vec![root.clone()]);
+    let exe = match std::env::current_exe() {
+        Ok(e) => e,
+        Err(_) => return "no-exe".into(),
+    };
+    let out = match std::process::Command::new(exe).arg("crash-child").arg(&root).arg(case).output() {
+        Ok(o) => o,
+        Err(_) => return "spawn-failed".into(),
+    };
+    let dead = out.status.signal() == Some(6);
+    if !dead && !out.status.success() {
+        return format!("child-failed:{}", hex(&format!("{:?}", out.status)));
+    }
+    let mut steps: Vec<String> = Vec::new();
+    let mut ids: Vec<String> = Vec::new();
+    let mut completed: Option<String> = None;
+    for l in String::from_utf8_lossy(&out.stdout).lines() {
+        if let Some(id) = l.strip_prefix("#id ") {
+            ids.push(id.to_string());
+        } else if let Some(id) = l.strip_prefix("#exit ") {
+            completed = Some(id.to_string());
+        } else if l.starts_with('#') {
+        } else {
+            steps.push(l.to_string());
+        }
+    }
+    let kpos = c.ops.iter().position(|o| matches!(o, Op::Kill(_) | Op::KillRestore(..))).unwrap();
+    if steps.len() != kpos || dead == completed.is_some() {
+        return format!("child-protocol:{}:{}", steps.len(), dead);
+    }
+    let mut now: u64 = c.ops[..kpos].iter().map(|o| if let Op::Advance(d) = o { *d } else { 0 }).sum();
+    let armed = match &c.ops[kpos] {
+        Op::Kill(p) | Op::KillRestore(_, p) => *p,
+        _ => 0,
+    };
+    // `@<n> <label>`: the crash point that killed the child
+    let head = if dead {
+        let e = String::from_utf8_lossy(&out.stderr);
+        let l = e.lines().rev().find(|l| l.starts_with('@')).unwrap_or("@? ?").to_string();
+        let mut it = l[1..].split(' ');
+        let n = it.next().unwrap_or("?");
+        let label = it.next().unwrap_or("?");
+        if n == armed.to_string() { format!("dead@{}", label) } else { format!("dead@{}#{}", label, n) }
+    } else {
+        "exit".to_string()
+    };
+    // the id under way when the child died: the one directory nobody reported, else (nothing on disk yet) the id the
+    // scheme of the code under test gives the next call; a completed call reported it itself
+    if matches!(c.ops[kpos], Op::Kill(_)) {
+        let under_way = match completed {
+            Some(id) => id,
+            None => {
+                let t = read_tree(&root);
+                let extra: Vec<String> = t.values().map(|x| x.0.clone()).filter(|n| !ids.contains(n)).collect();
+                if extra.len() == 1 { extra[0].clone() } else { format!("checkpoint_{}_{:06}", now, ids.len()) }
+            }
+        };
+        ids.push(under_way);
+    }
+    let files = show_files(&root, &tab);
+    let mut probes: Vec<String> = Vec::new();
+    for id in &ids {
+        verif_clock::set_ms(Some(now));
+        let mut fresh = StateStore::with_config(StateConfig { backend: StateBackend::File { path: root.clone() }, ..Default::default() });
+        fresh.put(KEYS[0], tab[1].clone()).unwrap();
+        fresh.put(KEYS[2], tab[3].clone()).unwrap();
+        let sentinel = store_view(&fresh, &tab);
+        let r = fresh.restore(id);
+        let v = store_view(&fresh, &tab);
+        probes.push(format!(
+            "{}>{}",
+            canon_id(id),
+            match r {
+                Ok(()) => format!("ok={}", show_view(&v)),
+                Err(e) => format!("{}={}", err_kind(&e), if v == sentinel && fresh.len() == sentinel.len() { "u" } else { "c" }),
+            }
+        ));
+    }
+    steps.push(format!("{}/{}/{}", head, files, if probes.is_empty() { "-".to_string() } else { probes.join(",") }));
+    // second life: a NEW store on the directory the child left
+    verif_clock::set_ms(Some(now));
+    let mut s = open_store(c, &root);
+    for op in &c.ops[kpos + 1..] {
+        let res = apply_plain(&mut s, op, &tab, &mut now, &mut ids);
+        steps.push(observe(&res, &s, Some(&root), &tab));
+    }
+    steps.join(";")
+}
+
 fn exec(case: &str) -> String {
     let Some(c) = parse_case(case) else { return "bad-case".into() };
+    if c.real {
+        return exec_real(&c, case);
+    }
     let tab = values();
     let root = fresh_dir("s");
     let scratch = fresh_dir("c");
@@ -547,6 +765,7 @@ fn exec(case: &str) -> String {
                 let id = ids.get(*i).cloned().unwrap_or_else(|| "checkpoint_nonexistent".to_string());
                 unit(s.restore(&id))
             }
+            Op::Kill(_) | Op::KillRestore(..) => "bad-op".into(),
             Op::Checkpoint | Op::Crash => {
                 let before = if c.file { read_tree(&root) } else { Tree::new() };
                 let view = store_view(s.st(), &tab);
@@ -639,7 +858,7 @@ fn gen(rng: &mut Rng, n: usize, tier: &str) -> Vec<String> {
     for s in &all {
         let mut ops = s.clone();
         ops.push(Op::Crash);
-        out.push(show_case(&Case { oper: false, file: true, max_ck: 2, ttl: None, ops }));
+        out.push(show_case(&Case { real: false, oper: false, file: true, max_ck: 2, ttl: None, ops }));
     }
     // the twin entry points: every sequence of length <= 3 over {put via state_mut, put via process, delete, checkpoint,
     // restore #0, restore #1} on a StatefulOperator (its checkpoint / restore must behave as the store's own, whatever
@@ -656,7 +875,7 @@ fn gen(rng: &mut Rng, n: usize, tier: &str) -> Vec<String> {
             }
         }
         for ops in &next {
-            out.push(show_case(&Case { oper: true, file: true, max_ck: 2, ttl: None, ops: ops.clone() }));
+            out.push(show_case(&Case { real: false, oper: true, file: true, max_ck: 2, ttl: None, ops: ops.clone() }));
         }
         frontier = next;
     }
@@ -690,7 +909,7 @@ fn gen(rng: &mut Rng, n: usize, tier: &str) -> Vec<String> {
         if with_crash {
             ops.push(Op::Crash);
         }
-        out.push(show_case(&Case { oper, file, max_ck, ttl, ops }));
+        out.push(show_case(&Case { real: false, oper, file, max_ck, ttl, ops }));
     }
     // interrupted-checkpoint family: a history that fills (or nearly fills, or overfills) the retention bound, then a
     // checkpoint that fails with an I/O error, then every earlier checkpoint is restored (still listed ones must
@@ -731,7 +950,7 @@ fn gen(rng: &mut Rng, n: usize, tier: &str) -> Vec<String> {
             1 => ops.push(Op::Crash),
             _ => {}
         }
-        out.push(show_case(&Case { oper, file: true, max_ck, ttl: None, ops }));
+        out.push(show_case(&Case { real: false, oper, file: true, max_ck, ttl: None, ops }));
     }
     // operator family: checkpoint through the operator, then change the state WITHOUT the operator noticing (edits
     // through state_mut(), expiry by the clock, a restore of an older checkpoint) or through process(), then restore
@@ -766,7 +985,62 @@ fn gen(rng: &mut Rng, n: usize, tier: &str) -> Vec<String> {
             }
             ops.push(Op::Restore(if rng.chance(3, 4) { n_ck - 1 } else { rng.below(n_ck as u64) as usize }));
         }
-        out.push(show_case(&Case { oper: true, file: true, max_ck, ttl, ops }));
+        out.push(show_case(&Case { real: false, oper: true, file: true, max_ck, ttl, ops }));
+    }
+    // real-kill family (kind Q): a history that leaves 0 .. max_checkpoints+1 checkpoints on disk (so the fatal checkpoint
+    // runs with and without a retention victim), then a `checkpoint` killed at EVERY numbered crash point 0..9 (the last
+    // ones past the end: the child exits after the call) - or a `restore` killed at every point 0..7 -, then, one or
+    // more milliseconds later, a new store on the same directory that puts, checkpoints and restores ids of both lives
+    let n_hist = if tier == "thorough" { 240 } else { 36 };
+    for h in 0..n_hist {
+        let max_ck = *rng.pick(&[0usize, 1, 1, 2, 2, 2, 3, 10]);
+        let ttl = if rng.chance(1, 6) { Some(*rng.pick(&[3u64, 10])) } else { None };
+        let n_before = rng.below((max_ck.min(2) + 2) as u64) as usize;
+        let mut pre = Vec::new();
+        for _ in 0..n_before {
+            pre.push(Op::Put(rng.below(3) as usize, rng.below(10) as usize));
+            if rng.chance(1, 3) {
+                pre.push(Op::Advance(rng.range(0, 2)));
+            }
+            pre.push(Op::Checkpoint);
+        }
+        for _ in 0..rng.range(0, 2) {
+            let (k, v) = (rng.below(3) as usize, rng.below(10) as usize);
+            pre.push(match rng.below(5) {
+                0 => Op::PutTtl(k, v, rng.range(0, 4)),
+                1 => Op::Delete(k),
+                2 if n_before > 0 => Op::Restore(rng.below(n_before as u64) as usize),
+                _ => Op::Put(k, v),
+            });
+        }
+        let restore_kill = n_before > 0 && h % 4 == 3;
+        let target = if restore_kill { if rng.chance(5, 6) { rng.below(n_before as u64) as usize } else { n_before } } else { 0 };
+        let n_old = n_before + if restore_kill { 0 } else { 1 };
+        let mut post = vec![Op::Advance(rng.range(1, 3))];
+        let mut n_ids = n_old;
+        for _ in 0..rng.range(0, 5) {
+            let (k, v) = (rng.below(3) as usize, rng.below(10) as usize);
+            post.push(match rng.below(6) {
+                0 | 1 => Op::Put(k, v),
+                2 | 3 => {
+                    n_ids += 1;
+                    Op::Checkpoint
+                }
+                _ => Op::Restore(rng.below(n_ids as u64 + 1) as usize),
+            });
+        }
+        // every id of the earlier life is restored by the reopened store in one history out of three
+        if h % 3 == 0 {
+            for i in 0..n_old {
+                post.push(Op::Restore(i));
+            }
+        }
+        for p in 0..=(if restore_kill { 7u64 } else { 9 }) {
+            let mut ops = pre.clone();
+            ops.push(if restore_kill { Op::KillRestore(target, p) } else { Op::Kill(p) });
+            ops.extend(post.iter().cloned());
+            out.push(show_case(&Case { real: true, oper: false, file: true, max_ck, ttl, ops }));
+        }
     }
     // expiry family: keys with a TTL that are written, updated, and observed around their expiry instant
     // (created_at + ttl, NOT refreshed by update), then checkpointed and restored: a snapshot must hold exactly
@@ -802,7 +1076,7 @@ fn gen(rng: &mut Rng, n: usize, tier: &str) -> Vec<String> {
             ops.push(Op::Checkpoint);
             ops.push(Op::Restore(1));
         }
-        out.push(show_case(&Case { oper: file && rng.chance(1, 5), file, max_ck, ttl, ops }));
+        out.push(show_case(&Case { real: false, oper: file && rng.chance(1, 5), file, max_ck, ttl, ops }));
     }
     out
 }
@@ -811,13 +1085,13 @@ fn shrink(case: &str) -> Vec<String> {
     let Some(c) = parse_case(case) else { return vec![] };
     let mut out = Vec::new();
     for ops in shrink_list(&c.ops) {
-        out.push(show_case(&Case { oper: c.oper, file: c.file, max_ck: c.max_ck, ttl: c.ttl, ops }));
+        out.push(show_case(&Case { real: c.real, oper: c.oper, file: c.file, max_ck: c.max_ck, ttl: c.ttl, ops }));
     }
     if c.ttl.is_some() {
-        out.push(show_case(&Case { oper: c.oper, file: c.file, max_ck: c.max_ck, ttl: None, ops: c.ops.clone() }));
+        out.push(show_case(&Case { real: c.real, oper: c.oper, file: c.file, max_ck: c.max_ck, ttl: None, ops: c.ops.clone() }));
     }
     if c.oper {
-        out.push(show_case(&Case { oper: false, file: c.file, max_ck: c.max_ck, ttl: c.ttl, ops: c.ops.clone() }));
+        out.push(show_case(&Case { real: c.real, oper: false, file: c.file, max_ck: c.max_ck, ttl: c.ttl, ops: c.ops.clone() }));
     }
     for (i, o) in c.ops.iter().enumerate() {
         let smaller = match o {
@@ -832,12 +1106,16 @@ fn shrink(case: &str) -> Vec<String> {
         if let Some(s) = smaller {
             let mut ops = c.ops.clone();
             ops[i] = s;
-            out.push(show_case(&Case { oper: c.oper, file: c.file, max_ck: c.max_ck, ttl: c.ttl, ops }));
+            out.push(show_case(&Case { real: c.real, oper: c.oper, file: c.file, max_ck: c.max_ck, ttl: c.ttl, ops }));
         }
     }
     out
 }
 
 fn main() {
+    let args: Vec<String> = std::env::args().collect();
+    if args.len() == 4 && args[1] == "crash-child" {
+        child_main(&args[2], &args[3]);
+    }
     main_with(Prop { gen, exec, shrink });
 }
